@@ -123,7 +123,7 @@ class ClassifierAfterKMeans(BaseEstimator, ClassifierMixin):
         <mlinsights.mlmodel.classification_kmeans.ClassifierAfterKMeans.set_params>`
         describes the pattern parameters names follow.
         """
-        res = {}
+        res = {"estimator": self.estimator, "clus": self.clus}
         for k, v in self.clus.get_params().items():
             res["c_" + k] = v
         for k, v in self.estimator.get_params().items():
@@ -141,6 +141,10 @@ class ClassifierAfterKMeans(BaseEstimator, ClassifierMixin):
         :return: dict
         """
         pc, pe = {}, {}
+        if "estimator" in values:
+            self.estimator = values.pop("estimator")
+        if "clus" in values:
+            self.clus = values.pop("clus")
         for k, v in values.items():
             if k.startswith("e_"):
                 pe[k[2:]] = v
@@ -150,6 +154,7 @@ class ClassifierAfterKMeans(BaseEstimator, ClassifierMixin):
                 raise ValueError(f"Unexpected parameter name '{k}'")
         self.clus.set_params(**pc)
         self.estimator.set_params(**pe)
+        return self
 
     def __repr__(self):
         """
